@@ -152,6 +152,25 @@ fn run_rates(sc: &Value, t: &mut Tracer) {
 				let _ = gw.finish();
 				t.ev(json!({"a": "enq"}));
 			}
+			// the rate-change call in its three stretches (yield points rate.stored / rate.walked)
+			"ChangeA" => {
+				let r = step["r"].as_u64().unwrap() as u32;
+				aw.start(&["rate.stored", "rate.walked"], move |rd| {
+					rd.on_change_sample_rate(r);
+					Value::Null
+				});
+				let _ = aw.wait();
+				// the change counts from the moment the call has begun: a track built from now on must be given the new rate
+				t.ev(json!({"a": "rate", "r": r}));
+			}
+			"ChangeB" => {
+				let _ = aw.resume();
+				t.ev(json!({"a": "tau"}));
+			}
+			"ChangeEnd" => {
+				let _ = aw.finish();
+				t.ev(json!({"a": "tau"}));
+			}
 			"Change" => {
 				let r = step["r"].as_u64().unwrap() as u32;
 				let _ = aw.call(move |rd| {
